@@ -52,6 +52,16 @@ def entries(ctx):
             if lr is None:
                 lr = LockRegions(u, f)
             held = sorted(set(mk for (mk, g) in lr.held_at(node) if is_smk(mk)) | eh.get(fk, frozenset()))
+            if not w:
+                # an array (or object) of static storage that decays / has its address taken as a pointer to non-const can
+                # be written through that pointer: the reference counts as a write of the object
+                par = node.get('_p') or {}
+                if par.get('kind') == 'ImplicitCastExpr' and par.get('castKind') == 'ArrayToPointerDecay' and \
+                        not re.match(r'^const\b', (qtype(par) or '').strip()):
+                    w = 'direct'
+                elif par.get('kind') == 'UnaryOperator' and par.get('opcode') == '&' and \
+                        not re.match(r'^const\b', (qtype(par) or '').strip()) and not re.search(r'\b(mutex|atomic<|once_flag)', qtype(par) or ''):
+                    w = 'direct'
             ent[key]['refs'].append(dict(fn=fk, node=node, write=w, held=held))
     out = []
     for key, e in ent.items():
